@@ -3,23 +3,23 @@ import SignaloModel.Proofs.ClassifyProofs
 /-!
 # C09 — Slope and peak classifiers report sign changes of the first difference
 
-Property theorems for C09 (statements are printed by `#check`, axioms by `#check @Registry.slope_spec
-#check @Registry.peak_spec
-#check @Registry.slopes_registry_correct
-#check @Registry.peaks_registry_correct
-#print axioms`;
-`bin/check C09` re-elaborates this file on every run and audits the axiom lists).
+The property theorems for C09: `#check` prints each statement, `#print axioms` its axioms;
+`bin/check C09` re-elaborates this file on every run and audits the axiom lists.
 -/
 open SignaloModel
 
+#check @Registry.slope_spec
+#check @Registry.peak_spec
+#check @Registry.slopes_registry_correct
+#check @Registry.peaks_registry_correct
 #check @Classify.slopeOf_lin
 #check @Classify.peaks_correct
 #check @Classify.peaks_value_eq_slope
 
-#print axioms Classify.slopeOf_lin
-#print axioms Classify.peaks_correct
-#print axioms Classify.peaks_value_eq_slope
 #print axioms Registry.slope_spec
 #print axioms Registry.peak_spec
 #print axioms Registry.slopes_registry_correct
 #print axioms Registry.peaks_registry_correct
+#print axioms Classify.slopeOf_lin
+#print axioms Classify.peaks_correct
+#print axioms Classify.peaks_value_eq_slope
